@@ -13,6 +13,9 @@ TRACE: seeded sessions against glas_verif_server with GLAS_VERIF_SCHED / GLAS_VE
        monitor lines (known findings F8a / F8b).  Diagnostics oracle: (a) in the trace - the last Publish of a document
        must stem from a diagnostics task whose snapshot held the final revision and that was not cancelled; (b) content -
        after quiescence one more edit appends a comment line, the republished diagnostics must equal the last published.
+       Overtaken requests: on a document of ~100 kB every request kind is raced with an edit whose moment is swept across the
+       request's latency (116 races); after quiescence the same request, asked alone, must answer like a reference server
+       that never had a request in flight (Convergence for answers: nothing an overtaken task leaves behind may survive).
 """
 import json, os, random, re, shutil, time
 from concurrent.futures import ThreadPoolExecutor
@@ -833,6 +836,122 @@ def f18_probe(out, seed, n=24):
 
 # --------------------------------------------------------------------------------------------------------------
 
+# --------------------------------------------------------------------------------------------------------------
+# overtaken requests on a large document
+
+def overtaken_sweep(out, seed, tier):
+    """Server.tla's Convergence says that what the server answers once it is quiet depends on the final text alone - in
+    particular not on requests that were overtaken by an edit.  On documents of a few kB the time between a task's query
+    and its return is microseconds; here the document is some hundred kB, the request takes tens of milliseconds, and the
+    moment at which the edit is sent is swept across that time (the C_EditT / T_QueryDone / T_Return interleavings of the
+    model, driven from outside).  After each race and quiescence the same request is asked again, one at a time, and
+    compared with a reference server that got the same final text with nothing in flight."""
+    rnd = random.Random(seed * 7 + 16)
+    nvar = int(os.environ.get("OVT_NVAR", 12000 if tier == "quick" else 30000))
+    # the token requests return the largest answers (the longest stretch between the end of the query and the task's return):
+    # their sweep is the finest
+    scale = int(os.environ.get("OVT_SCALE", 1 if tier == "quick" else 5))
+    steps_of = {"semFull": 80 * scale, "semRange": 16 * scale}
+    root = vlib.workdir("c16-overtaken")
+    shutil.rmtree(root, ignore_errors=True)
+    os.makedirs(os.path.join(root, "src"))
+    open(os.path.join(root, "gleam.toml"), "w").write('name = "p"\nversion = "0.1.0"\n')
+    path = os.path.join(root, "src", "big.gleam")
+    text = "pub type T {\n" + "".join(f"  V{i}\n" for i in range(nvar)) + "}\npub fn f(t: T) { t }\n"
+    open(path, "w").write(text)
+    u = lsp.uri(path)
+    raced = lsp.Session(root, stderr_path=os.path.join(root, "raced-stderr.log"))
+    ref = lsp.Session(root, stderr_path=os.path.join(root, "ref-stderr.log"))
+    state = {"text": text, "ver": 1, "edits": 1}
+    races = compared = 0
+
+    def params(kind):
+        nl = state["text"].count("\n")
+        if kind == "semRange":
+            return {"textDocument": {"uri": u}, "range": {"start": {"line": 0, "character": 0}, "end": {"line": nl, "character": 0}}}
+        if kind in ("hover", "highlight", "references"):
+            # the parameter `t` of f, on the last line but one
+            line = state["text"].split("\n")[nl - 1]
+            p = {"textDocument": {"uri": u}, "position": {"line": nl - 1, "character": line.index("(t") + 1}}
+            if kind == "references":
+                p["context"] = {"includeDeclaration": True}
+            return p
+        return {"textDocument": {"uri": u}}
+
+    def edit_msg():
+        state["text"] = "\n" + state["text"]
+        state["ver"] += 1
+        state["edits"] += 1
+        z = {"line": 0, "character": 0}
+        return {"jsonrpc": "2.0", "method": "textDocument/didChange",
+                "params": {"textDocument": {"uri": u, "version": state["ver"]}, "contentChanges": [{"range": {"start": z, "end": z}, "text": "\n"}]}}
+
+    def settle(sess):
+        end = time.time() + 120
+        while len(sess.diagnostics_for(path) or []) < state["edits"]:
+            if time.time() > end or not sess.alive():
+                return False
+            time.sleep(0.02)
+        sess.wait_quiet(quiet=0.1, timeout=10.0)
+        return True
+
+    def ask(sess, kind):
+        return sess.request(METHODS[kind], params(kind), 120.0)
+
+    try:
+        if raced.initialize() is None or ref.initialize() is None:
+            raise vlib.ToolError("server did not answer initialize")
+        raced.did_open(path, text)
+        ref.did_open(path, text)
+        if not (settle(raced) and settle(ref)):
+            raise vlib.ToolError("no diagnostics for the large document within 120 s")
+        for kind in os.environ.get("OVT_KINDS", "semFull semRange syntaxTree hover highlight references").split():
+            t0 = time.time()
+            if ask(raced, kind) is None:
+                out.report({"what": "hang" if raced.alive() else "died", "phase": "overtaken", "kind": kind}, {"nvar": nvar})
+                return
+            latency = time.time() - t0
+            vlib.log(f"C16 overtaken sweep: {kind} takes {latency:.4f}s undisturbed")
+            steps = steps_of.get(kind, 5 * scale)
+            for step in range(steps):
+                delay = latency * (step + rnd.random()) / steps
+                m = edit_msg()
+                raced.send_batch([m]); ref.send_batch([m])
+                settle(raced); settle(ref)
+                # the race: the request, `delay` later the edit
+                i = raced.new_id()
+                raced.send_batch([{"jsonrpc": "2.0", "id": i, "method": METHODS[kind], "params": params(kind)}])
+                time.sleep(delay)
+                m = edit_msg()
+                raced.send_batch([m])
+                if raced.wait(i, 120.0) is None:
+                    out.report({"what": "hang" if raced.alive() else "died", "phase": "overtaken", "kind": kind}, {"nvar": nvar, "delay": delay})
+                    return
+                ref.send_batch([m])
+                if not (settle(raced) and settle(ref)):
+                    out.report({"what": "hang" if raced.alive() and ref.alive() else "died", "phase": "overtaken-settle", "kind": kind}, {"nvar": nvar, "delay": delay})
+                    return
+                races += 1
+                for k2 in ([kind] if kind == "semFull" else [kind, "semFull"]):
+                    got, want = ask(raced, k2), ask(ref, k2)
+                    if got is None or want is None:
+                        out.report({"what": "hang", "phase": "overtaken-settled", "kind": k2}, {"nvar": nvar})
+                        return
+                    compared += 1
+                    if ("error" in got) != ("error" in want) or canon(got.get("result")) != canon(want.get("result")):
+                        out.report({"what": "stale_after_overtaken_request", "kind": k2, "raced_kind": kind},
+                                   {"nvar": nvar, "seed": seed, "delay_s": round(delay, 4), "latency_s": round(latency, 4), "edits": state["edits"],
+                                    "got": json.dumps(got.get("result", got.get("error")))[:200], "want": json.dumps(want.get("result", want.get("error")))[:200]})
+                        return
+    finally:
+        raced.close()
+        ref.close()
+        shutil.rmtree(root, ignore_errors=True)
+    out.cov["overtaken_races"] = races
+    out.cov["evaluations"] += compared
+    vlib.log(f"C16 overtaken sweep: {races} races on a document of {len(text)} bytes, {compared} settled answers compared with the reference")
+
+
 def mc(out, tier):
     ok_cfgs = ["c1", "a1", "live2"] + (["c2", "a2", "live", "f18fix"] if tier == "thorough" else [])
     bad_cfgs = {"x_mix": "NoMixture", "x_diag": "Convergence", "x_stale": "Convergence", "x_hold": "NoDeadlock",
@@ -945,6 +1064,7 @@ def run(out, tier, seed):
             f.result()
     n_acc, n_lines, n_req, n_edit = tot["acc"], tot["lines"], tot["req"], tot["edit"]
     f18_probe(out, seed)
+    overtaken_sweep(out, seed, tier)
     out.cov["traces_validated_against_impl"] += n_acc
     out.cov["evaluations"] += n_req + n_edit
     out.cov["distinct_nontrivial"] += n_acc
@@ -957,8 +1077,9 @@ def run(out, tier, seed):
                        "event, no apply completes while a snapshot lives, one response per request, text convergence at quiescence; "
                        "NoMixture and diagnostics provenance reported by monitors); plus the driver's own checks (deadline %ds per request, "
                        "publishDiagnostics stream = hook stream, diagnostics content oracle, every ok answer compared with a quiet sequential "
-                       "reference server for the workspace it was issued against, exit status) and one F18 probe (24 simultaneous "
-                       "requests). non-trivial = accepted sessions" % (nsess, n_req, n_edit, n_lines, int(DEADLINE)))
+                       "reference server for the workspace it was issued against, exit status), one F18 probe (24 simultaneous "
+                       "requests) and the overtaken-request sweep on a ~100 kB document (edit moment swept across the latency of each request "
+                       "kind, settled answers compared with a sequential reference). non-trivial = accepted sessions" % (nsess, n_req, n_edit, n_lines, int(DEADLINE)))
     out.assumptions += ["hook events carry probed state; their global sequence number orders them; TaskReturn is logged after the snapshot "
                         "was dropped, so the trace spec lets T_Return happen earlier than its line",
                         "the final text is read back through glas/syntaxTree (rowan abbreviates tokens >= 25 bytes: prefix compared) and "
@@ -967,6 +1088,11 @@ def run(out, tier, seed):
 
 def replay(out, path):
     d = json.load(open(path))["detail"]
+    if "nvar" in d:
+        # an overtaken request on the large document: a race - the sweep is run again, finer
+        os.environ.setdefault("OVT_SCALE", "3")
+        overtaken_sweep(out, int(d.get("seed") or 1), "quick")
+        return
     if "sid" not in d:
         f18_probe(out, 1)
         return
